@@ -1,4 +1,5 @@
 import PeptVerif.Lemmas.NumSpec
+import PeptVerif.Model.ModDbGen
 import Mathlib.Tactic.Ring
 /-!
 Helper lemmas for the glycan half of C15 (`Props/C15Glycan.lean`): vocabulary order (`namesSorted`), the
@@ -950,4 +951,191 @@ theorem compSum_mapKeys (mono : List Entry) (f : Str → Str) (g : Comp) (el : S
     simp only [compSum, mapKeys, List.map_cons, List.sum_cons, h1] at ih' ⊢
     rw [ih']
 
+/-! ## the tokenizer terminates with a dict or `InvalidGlycanFormulaError` -/
+
+theorem parseGlycanAux_total (names : List Str) (hne : ∀ nm ∈ names, nm ≠ []) :
+    ∀ (s : Str) (n : Nat) (d : Comp),
+      (∃ c, parseGlycanAux names n s d = .ok c) ∨ parseGlycanAux names n s d = .error .invalidGlycanFormula := by
+  intro s
+  induction s with
+  | nil => intro n d; exact Or.inl ⟨d, by cases n <;> rfl⟩
+  | cons c r ih =>
+    intro n d
+    cases n with
+    | succ k => simpa [parseGlycanAux] using ih k d
+    | zero =>
+      rw [parseGlycanAux]
+      cases hf : names.find? (fun nm => nm.isPrefixOf (c :: r)) with
+      | none => exact Or.inr rfl
+      | some nm =>
+        have hnm : nm ≠ [] := hne nm (List.mem_of_find?_eq_some hf)
+        have hemp : nm.isEmpty = false := by
+          cases nm with
+          | nil => exact absurd rfl hnm
+          | cons _ _ => rfl
+        simp only [hemp, Bool.false_eq_true, if_false]
+        cases countOf (spanP isCountChar (List.drop nm.length (c :: r))).1 with
+        | none => exact Or.inr rfl
+        | some v => exact ih _ _
+
+/-! ## the generated vocabulary: exactly which written forms are ambiguous -/
+section GenTable
+local notation "NAMES" => namesSorted Gen.Mono.entries
+
+theorem gen_nonempty : ∀ nm ∈ NAMES, nm ≠ [] := by decide +kernel
+
+theorem gen_startsCount : ∀ nm ∈ NAMES, startsCount nm = false := by decide +kernel
+
+theorem gen_clash : ∀ nm ∈ NAMES, ∀ n ∈ NAMES,
+    (match n.drop nm.length with
+      | c :: _ => nm.isPrefixOf n && (isDigit c || c == 45 || c == 46) && !(nm == str% "Neu" && c == 53)
+      | [] => false) = false := by decide +kernel
+
+theorem gen_neu5 : ∀ n ∈ NAMES, (str% "Neu5").isPrefixOf n = true → n = str% "Neu5Ac" ∨ n = str% "Neu5Gc" := by
+  decide +kernel
+
+theorem gen_ac : ∀ k ∈ NAMES, ∀ X ∈ [65, 71],
+    k ≠ [X] ∧ ([X, 99].isPrefixOf k = true → X = 65 ∧ (k = str% "Ac" ∨ k = str% "Acetyl")) := by
+  decide +kernel
+
+theorem gen_mem : str% "Neu5Ac" ∈ NAMES := by decide +kernel
+
+/-- the only vocabulary name continued by a count character to another vocabulary name is `Neu` (by `5`) -/
+theorem gen_only_clash (nm : Str) (hnm : nm ∈ NAMES) (c : Nat) (hc : (isDigit c || c == 45 || c == 46) = true)
+    (n : Str) (hn : n ∈ NAMES) (r : Str) (hr : n = nm ++ [c] ++ r) : nm = str% "Neu" ∧ c = 53 := by
+  have h := gen_clash nm hnm n hn
+  have hd : n.drop nm.length = c :: r := by
+    rw [hr, List.append_assoc, List.drop_left]; rfl
+  have hpre : nm.isPrefixOf n = true := isPrefixOf_iff.2 ⟨c :: r, by rw [hr]; simp⟩
+  rw [hd] at h
+  simp only [hpre, hc, Bool.true_and, Bool.not_eq_false', Bool.and_eq_true, beq_iff_eq] at h
+  exact h
+
+/-- if at an item some longer vocabulary name matches, the item is `Neu` with count text `5` and the next key is `Ac`
+or `Acetyl` -/
+theorem gen_item_ambiguous (nm : Str) (v : Num) (g' : Comp) (hnm : nm ∈ NAMES) (hv : NumOK v)
+    (hk' : ∀ kv ∈ g', kv.1 ∈ NAMES) (n : Str) (hn : n ∈ NAMES)
+    (hp : n <+: nm ++ v.show ++ writeGlycan g' []) (hlen : nm.length < n.length) :
+    nm = str% "Neu" ∧ v.show = [53] ∧
+      ∃ k2 v2 r, g' = (k2, v2) :: r ∧ (k2 = str% "Ac" ∨ k2 = str% "Acetyl") := by
+  cases hsh : v.show with
+  | nil => exact absurd hsh hv.ne
+  | cons c0 s =>
+    rw [hsh] at hp
+    have hc0 : (isDigit c0 || c0 == 45 || c0 == 46) = true := hv.chars c0 (by rw [hsh]; simp)
+    have h2 : (nm ++ [c0]) <+: (nm ++ c0 :: s ++ writeGlycan g' []) := ⟨s ++ writeGlycan g' [], by simp⟩
+    obtain ⟨r0, hr0⟩ := List.prefix_of_prefix_length_le h2 hp (by simp; omega)
+    obtain ⟨rfl, rfl⟩ := gen_only_clash nm hnm c0 hc0 n hn r0 hr0.symm
+    have hn5 := gen_neu5 n hn (isPrefixOf_iff.2 ⟨r0, by rw [← hr0]; rfl⟩)
+    obtain ⟨X, hX, hnX⟩ : ∃ X, X ∈ [65, 71] ∧ n = [78, 101, 117, 53, X, 99] := by
+      rcases hn5 with h | h
+      · exact ⟨65, by simp, h⟩
+      · exact ⟨71, by simp, h⟩
+    rw [hnX] at hp
+    simp only [List.cons_append, List.nil_append, List.cons_prefix_cons, true_and] at hp
+    cases s with
+    | cons c' s' =>
+      exfalso
+      simp only [List.cons_append, List.cons_prefix_cons] at hp
+      have hc' : (isDigit c' || c' == 45 || c' == 46) = true := hv.chars c' (by rw [hsh]; simp)
+      rw [← hp.1] at hc'
+      simp only [List.mem_cons, List.not_mem_nil, or_false] at hX
+      rcases hX with rfl | rfl <;> exact absurd hc' (by decide)
+    | nil =>
+      refine ⟨rfl, rfl, ?_⟩
+      simp only [List.nil_append] at hp
+      cases g' with
+      | nil => simp [writeGlycan_nil] at hp
+      | cons kv2 r =>
+        obtain ⟨k2, v2⟩ := kv2
+        refine ⟨k2, v2, r, rfl, ?_⟩
+        have hk2 : k2 ∈ NAMES := hk' (k2, v2) (by simp)
+        have hfacts := gen_ac k2 hk2 X hX
+        rw [writeGlycan_cons] at hp
+        cases k2 with
+        | nil => exact absurd rfl (gen_nonempty _ hk2)
+        | cons a t =>
+          simp only [List.cons_append, List.cons_prefix_cons] at hp
+          obtain ⟨rfl, hp2⟩ := hp
+          cases t with
+          | nil => exact absurd rfl hfacts.1
+          | cons b t' =>
+            simp only [List.cons_append, List.cons_prefix_cons] at hp2
+            obtain ⟨rfl, _⟩ := hp2
+            exact (hfacts.2 (by simp [List.isPrefixOf])).2
+
+/-- `Neu` with count text `5` immediately followed by `Ac` / `Acetyl` somewhere in the dict -/
+def neu5ac : Comp → Bool
+  | [] => false
+  | [_] => false
+  | (nm, v) :: (k2, v2) :: r =>
+    (nm == str% "Neu" && v.show == [53] && (k2 == str% "Ac" || k2 == str% "Acetyl")) || neu5ac ((k2, v2) :: r)
+
+/-- the check `Unambig` makes at one item: no longer vocabulary name matches -/
+def noLonger (names : List Str) (nm : Str) (text : Str) : Bool :=
+  names.all (fun n => !(n.isPrefixOf text) || decide (n.length ≤ nm.length))
+
+theorem gen_noLonger_false (nm : Str) (v : Num) (g' : Comp) (hnm : nm ∈ NAMES) (hv : NumOK v)
+    (hk' : ∀ kv ∈ g', kv.1 ∈ NAMES)
+    (h : noLonger NAMES nm (nm ++ v.show ++ writeGlycan g' []) = false) :
+    nm = str% "Neu" ∧ v.show = [53] ∧
+      ∃ k2 v2 r, g' = (k2, v2) :: r ∧ (k2 = str% "Ac" ∨ k2 = str% "Acetyl") := by
+  simp only [noLonger, List.all_eq_false, Bool.or_eq_true, Bool.not_eq_true', decide_eq_true_eq, not_or,
+    Bool.not_eq_false] at h
+  obtain ⟨n, hn, hp, hlen⟩ := h
+  exact gen_item_ambiguous nm v g' hnm hv hk' n hn (List.isPrefixOf_iff_prefix.1 hp) (by omega)
+
+theorem gen_noLonger_neu5ac (v v2 : Num) (k2 : Str) (r : Comp) (hv : v.show = [53])
+    (hk2 : k2 = str% "Ac" ∨ k2 = str% "Acetyl") :
+    noLonger NAMES (str% "Neu") (str% "Neu" ++ v.show ++ writeGlycan ((k2, v2) :: r) []) = false := by
+  simp only [noLonger, List.all_eq_false, Bool.or_eq_true, Bool.not_eq_true', decide_eq_true_eq, not_or,
+    Bool.not_eq_false]
+  refine ⟨str% "Neu5Ac", gen_mem, ?_, by decide⟩
+  rw [hv, writeGlycan_cons]
+  rcases hk2 with rfl | rfl <;> simp [List.isPrefixOf]
+
+/-- for the generated vocabulary a written dict (keys in the vocabulary, printable counts) is ambiguous exactly when it
+contains `Neu` with count text `5` immediately followed by `Ac` or `Acetyl` (written `Neu5Ac…`) -/
+theorem gen_unambig_eq : ∀ g : Comp, (∀ kv ∈ g, kv.1 ∈ NAMES) → (∀ kv ∈ g, NumOK kv.2) →
+    Unambig NAMES g = !neu5ac g := by
+  intro g
+  induction g with
+  | nil => intro _ _; rfl
+  | cons kv g' ih =>
+    intro hk hv
+    obtain ⟨nm, v⟩ := kv
+    have hnm : nm ∈ NAMES := hk (nm, v) (by simp)
+    have hvv : NumOK v := hv (nm, v) (by simp)
+    have hk' : ∀ kv ∈ g', kv.1 ∈ NAMES := fun kv hkv => hk kv (List.mem_cons_of_mem _ hkv)
+    have ih' := ih hk' (fun kv hkv => hv kv (List.mem_cons_of_mem _ hkv))
+    have hsc := startsCount_write NAMES gen_nonempty gen_startsCount g' hk'
+    have hcont : (NAMES).contains nm = true := by simpa using hnm
+    have hU : Unambig NAMES ((nm, v) :: g') =
+        (noLonger NAMES nm (nm ++ v.show ++ writeGlycan g' []) && Unambig NAMES g') := by
+      simp only [Unambig, noLonger, hcont, hsc, Bool.true_and, Bool.not_false, Bool.and_true]
+    rw [hU, ih']
+    cases hL : noLonger NAMES nm (nm ++ v.show ++ writeGlycan g' []) with
+    | false =>
+      obtain ⟨rfl, hsh, k2, v2, r, rfl, hk2⟩ := gen_noLonger_false nm v g' hnm hvv hk' hL
+      have : ((str% "Neu") == (str% "Neu") && v.show == [53] && (k2 == str% "Ac" || k2 == str% "Acetyl")) = true := by
+        rcases hk2 with rfl | rfl <;> simp [hsh]
+      simp only [neu5ac, this, Bool.true_or, Bool.not_true, Bool.false_and]
+    | true =>
+      cases g' with
+      | nil => rfl
+      | cons kv2 r =>
+        obtain ⟨k2, v2⟩ := kv2
+        have : (nm == str% "Neu" && v.show == [53] && (k2 == str% "Ac" || k2 == str% "Acetyl")) = false := by
+          cases hcond : (nm == str% "Neu" && v.show == [53] && (k2 == str% "Ac" || k2 == str% "Acetyl")) with
+          | false => rfl
+          | true =>
+            exfalso
+            simp only [Bool.and_eq_true, Bool.or_eq_true, beq_iff_eq] at hcond
+            obtain ⟨⟨rfl, hsh⟩, hk2⟩ := hcond
+            have := gen_noLonger_neu5ac v v2 k2 r hsh hk2
+            rw [this] at hL
+            cases hL
+        simp only [neu5ac, this, Bool.false_or, Bool.true_and]
+
+end GenTable
 end Formula
